@@ -144,7 +144,11 @@ class GrammarSemantics(ModelBuilderSemantics):
     # JSON
     def number(self, ast):
         if isinstance(ast, str):
-            return literal_eval(ast)
+            try:
+                return literal_eval(ast)
+            except (SyntaxError, ValueError) as e:
+                # NOTE: a number with more digits than Python converts
+                raise FailedSemantics(f'number error: {e!s}'[:120]) from e
         return ast
 
     def cut_deprecated(self, _ast):
